@@ -144,8 +144,19 @@ def run(model: RepoModel, rep, tier: str):
                            f"handler dispatches on its name: its bodies are walked as one straight line (branches not represented)")
 
     # ------------------------------------------------------------------ R3
-    walkers = [f for f in cfa.methods.values() if any(
-        isinstance(n, ast.Compare) and isinstance(n.left, ast.Name) and n.left.id == "boundary" and isinstance(n.ops[0], ast.Lt)
+    def walker_roles(f):
+        """(frontier var, boundary var) of a block walker: the pair unpacked from the call of a handler looked up in self.stmt_handlers."""
+        hvars = {n.targets[0].id for n in walk_no_nested(f.node) if isinstance(n, ast.Assign) and isinstance(n.targets[0], ast.Name)
+                 and any(is_self_attr(x, "stmt_handlers") for x in ast.walk(n.value))}
+        for n in walk_no_nested(f.node):
+            if isinstance(n, ast.Assign) and isinstance(n.targets[0], ast.Tuple) and len(n.targets[0].elts) == 2 \
+                    and all(isinstance(e, ast.Name) for e in n.targets[0].elts) and isinstance(n.value, ast.Call) \
+                    and isinstance(n.value.func, ast.Name) and n.value.func.id in hvars:
+                return n.targets[0].elts[0].id, n.targets[0].elts[1].id
+        return None
+    roles = {f.name: walker_roles(f) for f in cfa.methods.values()}
+    walkers = [f for f in cfa.methods.values() if roles[f.name] and any(
+        isinstance(n, ast.Compare) and isinstance(n.left, ast.Name) and n.left.id == roles[f.name][1] and isinstance(n.ops[0], ast.Lt)
         for n in walk_no_nested(f.node))]
     if len(walkers) < 1:
         raise AnalysisError("no block walker testing `boundary < 0` found in ControlFlowAnalysis")
@@ -174,7 +185,7 @@ def run(model: RepoModel, rep, tier: str):
         # find the `if boundary < 0` test and what its T-branch does
         tests = [n for n in cfg.g.nodes if cfg.kind[n] == "test" and isinstance(cfg.stmt[n], ast.If)
                  and isinstance(cfg.stmt[n].test, ast.Compare) and isinstance(cfg.stmt[n].test.left, ast.Name)
-                 and cfg.stmt[n].test.left.id == "boundary"]
+                 and cfg.stmt[n].test.left.id == roles[w.name][1]]
         if not tests:
             rep.unknown("C04.R3", key, FILE, w.node.lineno, "sentinel test not recognised")
             continue
@@ -184,7 +195,7 @@ def run(model: RepoModel, rep, tier: str):
         frontier_tests = set()
         for n in cfg.g.nodes:
             st = cfg.stmt.get(n)
-            if cfg.kind[n] == "test" and isinstance(st, ast.If) and any(isinstance(x, ast.Name) and x.id == "previous" for x in ast.walk(st.test)):
+            if cfg.kind[n] == "test" and isinstance(st, ast.If) and any(isinstance(x, ast.Name) and x.id == roles[w.name][0] for x in ast.walk(st.test)):
                 frontier_tests.add(n)
         breaks = [n for n in cfg.reachable(tb) | {tb} if cfg.kind.get(n) == "stmt" and isinstance(cfg.stmt[n], ast.Break)]
         unguarded = [b for b in breaks if cfg.path_avoiding(tb, b, frontier_tests) is not None or b in set(cfg.g.successors(tb))]
@@ -223,8 +234,11 @@ def run(model: RepoModel, rep, tier: str):
         h = cfa.methods[hn]
         cfg = cfg_of(h.node)
         key = f"{FILE}::{h.qualname}::fresh special list, passed to body, resolved"
+        # by role: an empty-list local that is handed to the resolver of pending break/continue statements
+        resolver_args = {a.id for c in walk_no_nested(h.node) if isinstance(c, ast.Call) and is_self_attr(c.func, dl.name)
+                         for a in list(c.args) + [k.value for k in c.keywords] if isinstance(a, ast.Name)}
         fresh = [n.targets[0].id for n in walk_no_nested(h.node) if isinstance(n, ast.Assign) and isinstance(n.targets[0], ast.Name)
-                 and isinstance(n.value, ast.List) and not n.value.elts and "special" in n.targets[0].id]
+                 and isinstance(n.value, ast.List) and not n.value.elts and n.targets[0].id in resolver_args]
         probs = []
         if not fresh:
             probs.append("no fresh special-statement list is created for the loop")
@@ -409,7 +423,9 @@ def run(model: RepoModel, rep, tier: str):
                         parents[id(c)] = x
                 for u in uses:
                     par = parents.get(id(u))
-                    ok = isinstance(par, ast.Call) and u in par.args and isinstance(par.func, ast.Name) and par.func.id == "handler" \
+                    hv = {n.targets[0].id for n in walk_no_nested(w.node) if isinstance(n, ast.Assign) and isinstance(n.targets[0], ast.Name)
+                          and any(is_self_attr(x, "stmt_handlers") for x in ast.walk(n.value))}
+                    ok = isinstance(par, ast.Call) and u in par.args and isinstance(par.func, ast.Name) and par.func.id in hv \
                         and par.args and par.args[-1] is u
                     if not ok:
                         bad.append(u)
@@ -444,9 +460,9 @@ def _is_attr(name):
 from .c02 import _rename_attr, _rename_op  # noqa: E402  (shared AST-located frontend mutators)
 
 C04_ADJUDICATED = {
-    "basics/control_flow.py::ControlFlowAnalysis.analyze_init_block::last_parameter_init_stmts::break under `not previous`":
+    "basics/control_flow.py::ControlFlowAnalysis.analyze_init_block::`last_parameter_init_stmts`::break under `not previous`":
         "a handler returned a negative boundary with an empty frontier: the block ended in return/break/continue, nothing follows (fix fe58859)",
-    "basics/control_flow.py::ControlFlowAnalysis.analyze_init_block::last_parameter_decl_stmts::break under `not previous`":
+    "basics/control_flow.py::ControlFlowAnalysis.analyze_init_block::`last_parameter_decl_stmts`::break under `not previous`":
         "same statement as above (the loop grows two frontiers)",
 }
 
